@@ -51,6 +51,27 @@ def suite_array(ctx, case):
     import copy
     o2 = pyPRISM.omega.FromArray(np.array(val, dtype=float), None if ks is None else np.array(ks, dtype=float))
     tab = pyPRISM.PairTable(['A'], 'omega'); tab['A', 'A'] = o2
+    # the stored copy is the table's own: later in-place changes to the caller's object / array do not reach it
+    if hasattr(o2, 'value') and isinstance(o2.value, np.ndarray): o2.value[:] = -555.0
+    if ks is not None and hasattr(o2, 'k') and isinstance(o2.k, np.ndarray): o2.k[:] = -1.0
+    o2 = pyPRISM.omega.FromArray(np.array(val, dtype=float), None if ks is None else np.array(ks, dtype=float))
+    # a System that holds the table and builds PRISM objects from it more than once: the table stays verbatim, every PRISM object gets table * rho_site
+    if case.get('dom') and exp is not None and len(val) == case['dom'][0]:
+        L, dr = case['dom']
+        sy = pyPRISM.System(['A'], kT=1.0); sy.domain = pyPRISM.Domain(length=L, dr=dr) if not case.get('dom_dk') else pyPRISM.Domain(length=L, dk=case['dom_dk'])
+        sy.density['A'] = 0.37; sy.diameter['A'] = 1.0
+        sy.potential['A', 'A'] = pyPRISM.potential.HardSphere(); sy.closure['A', 'A'] = pyPRISM.closure.PercusYevick()
+        sy.omega['A', 'A'] = pyPRISM.omega.FromArray(np.array(val, dtype=float), None if ks is None else np.array(ks, dtype=float))
+        if bool(np.allclose(sy.domain.k, kd, rtol=0, atol=0)):
+            oks = True; whys = ''
+            for rep in range(3):
+                try:
+                    pp = sy.createPRISM()
+                    if not np.array_equal(pp.omega.data[:, 0, 0], np.array(val, dtype=float) * 0.37): oks = False; whys = 'PRISM object #%d: omega is not table * rho_site' % rep
+                    if outcome(lambda: sy.omega['A', 'A'].calculate(kd)) != want: oks = False; whys = 'after createPRISM #%d the System\'s table is no longer returned verbatim' % rep
+                except Exception as e:
+                    oks = False; whys = 'createPRISM #%d raised %s' % (rep, type(e).__name__)
+            ctx.pred('array', case, oks, 'FromArray in a System: ' + whys, key='C12:fromarray')
     for how, obj in (('deepcopy', lambda: copy.deepcopy(o2)), ('System.omega table', lambda: tab['A', 'A']), ('deepcopy of the table entry', lambda: copy.deepcopy(tab)['A', 'A'])):
         got = outcome(lambda: obj().calculate(kd))
         ctx.corr('array', case, ctx.drv.ask(line), got, what='FromArray.calculate through ' + how)
@@ -70,6 +91,14 @@ def suite_file(ctx, case):
         o = pyPRISM.omega.FromFile(path)
         impl = outcome(lambda: o.calculate(kd))
         R, C = len(rows), len(rows[0])
+        # the same file NAME written again with other values (omega_AA.dat of the next study): a new FromFile object returns what the file holds now
+        if impl.startswith('ok') and case.get('rewrite'):
+            rows2 = [[x if (C >= 2 and q == 0) else 0.5 * x + 1.25 for q, x in enumerate(r_)] for r_ in rows]
+            with open(path, 'w') as fh:
+                for r_ in rows2: fh.write(' '.join(repr(float(x)) for x in r_) + '\n')
+            got2 = outcome(lambda: pyPRISM.omega.FromFile(path).calculate(kd))
+            want2 = 'ok ' + fl([r_[1] if C >= 2 else r_[0] for r_ in rows2])
+            ctx.pred('file', case, got2 == want2, 'a file written again under the same name: a new FromFile object returns %s..., the file holds %s...' % (got2[:40], want2[:40]), key='C12:fromfile-2col' if C >= 2 else 'C12:fromfile-1col')
         flat = [x for r in rows for x in r]
         line = 'ff.calc %s %d %d | %s | %s' % ('fixed', R, C, fl(flat), fl(kd))
         ctx.corr('file', case, ctx.drv.ask(line), impl, what='FromFile.calculate')
@@ -178,7 +207,7 @@ def generate(ctx):
             ks = relate(rng, kd, rel) if kind == 'array' else None
             nval = len(ks) if ks is not None else (L if rel in ('equal', 'shifted', 'rescaled', 'perturbed') else len(relate(rng, kd, rel)))
             if rng.random() < 0.1: nval = max(1, nval + rng.choice([-1, 1]))
-            case = {'kd': kd, 'k': ks, 'value': [round(rng.choice([rng.uniform(0, 30), rng.uniform(-0.5, 0.5), rng.uniform(-30, 30), 0.0, 10 ** rng.uniform(-12, -6)]), 12) for _ in range(nval)], 'rel': rel, 'kcont': rng.choice(['array', 'array', 'list', 'tuple'])}
+            case = {'kd': kd, 'k': ks, 'value': [round(rng.choice([rng.uniform(0, 30), rng.uniform(-0.5, 0.5), rng.uniform(-30, 30), 0.0, 10 ** rng.uniform(-12, -6)]), 12) for _ in range(nval)], 'rel': rel, 'kcont': rng.choice(['array', 'array', 'list', 'tuple']), 'dom': [L, dr]}
             ctx.case('array', case, rel != 'equal', tags=['kind:' + kind, 'rel:' + rel, 'L<=%d' % (8 * ((L + 7) // 8))])
             suite_array(ctx, case)
         else:
@@ -188,6 +217,6 @@ def generate(ctx):
                 rows = [[k, round(rng.choice([rng.uniform(0, 30), rng.uniform(-0.5, 0.5), rng.uniform(-30, 30), 0.0, 10 ** rng.uniform(-12, -6)]), 12)] for k in ks]
             else:
                 rows = [[round(rng.choice([rng.uniform(0, 30), rng.uniform(-0.5, 0.5), rng.uniform(-30, 30), 0.0, 10 ** rng.uniform(-12, -6)]), 12)] for _ in ks]
-            case = {'kd': kd, 'rows': rows, 'rel': rel, 'dom': [L, dr]}
+            case = {'kd': kd, 'rows': rows, 'rel': rel, 'dom': [L, dr], 'rewrite': rng.random() < 0.4}
             ctx.case('file', case, rel != 'equal' or len(rows) == 1, tags=['kind:' + kind, 'rel:' + rel, 'rows=1' if len(rows) == 1 else 'rows>1'])
             suite_file(ctx, case)
